@@ -97,16 +97,21 @@ CLAIMS["C01"] = {
     "ref": "DESIGN.md section 7 C01",
 }
 CLAIMS["C08"] = {
-    "text": "Thirty-seven Coq theorems (Props/C08.v) with NO well-formedness hypothesis on the value: enc_Dns/enc_RR/enc_Question/"
+    "text": "Fifty-two Coq theorems (Props/C08.v). C08_ok_means_decodable: for every API-constructible value (api_ok: exactly what "
+            "Rust's types guarantee - integer widths, valid labels and names, enum members, UTF-8 strings of ANY length, the "
+            "validated types' invariants, sections of any length) outside the four known-finding classes KF4-KF7, if encode "
+            "returns Ok then both the library's decoder model and the independent reference decoder read the output back as that "
+            "value; C08_unrepresentable_is_not_ok: a value violating a wire constraint never encodes to Ok; each known class is "
+            "shown necessary by a machine-checked witness (C08_known_refuted_*). With NO well-formedness hypothesis on the value: enc_Dns/enc_RR/enc_Question/"
             "enc_Flags/enc_DomainName never panic for any value (length-slot subtraction, prefix loop shown in range); Ok output has "
             "<= 65,535 octets; the four count fields equal the section lengths and are <= 65,535; every RDLENGTH, option length, "
             "SvcParam length and APL address length equals the octets it covers (exact slot lemma) or the call fails with Length; a "
             "character string > 255 octets, a section > 65,535 entries, an ECH list > 65,535, a pointer offset > 16383 each give "
             "the corresponding error; the message is header ++ question blocks ++ record blocks of the stated shape; typed values "
             "never hit the ill-typed branch (writer/reader tables agree, by vm_compute over the generated tables); output octets "
-            "< 256. The decodability clause is decided by the oracle (reference decoder on the implementation's bytes) with the "
-            "four known-finding classes KF4-KF7. Tie: E cases beyond every limit, byte-exact vs the model.",
-    "note": "'Ok means decodable to the same value' is checked on the implementation's output by the independent reference decoder (test), the theorem part covers limits, lengths, counts and absence of panics. Known findings KF4-KF7 (known_findings.json). " + NOTE_COMMON,
+            "< 256. Tie: E cases beyond every limit, byte-exact vs the model; the implementation's output is re-read by the Python "
+            "reference decoder, failures attributed to KF4-KF7 only by the class predicates.",
+    "note": "Known findings KF4-KF7 (known_findings.json) are excluded by known_class, each with a refutation witness; api_ok is the model's rendering of 'constructible through the public API'. " + NOTE_COMMON,
     "technique": "Coq proof (buffer-extension predicate, length-slot combinator, table agreement by vm_compute) + byte-exact differential correspondence + reference-decoder oracle with known-finding classes",
     "ref": "DESIGN.md section 7 C08",
 }
@@ -196,7 +201,13 @@ CLAIMS["C03"] = {
     "ref": "DESIGN.md section 7 C03",
 }
 CLAIMS["C04"] = {
-    "text": "Twelve Coq theorems (Props/C04.v): completeness - whatever the independent reference decoder Spec/Wire.v accepts (whole "
+    "text": "Twenty-one Coq theorems (Props/C04.v). C04_render_accepted: Spec/Render.v defines, declaratively and from the RFCs "
+            "alone, when an octet string is a legal wire rendering of a message value - every label in any ASCII case, a name cut "
+            "at any label boundary by a pointer to an earlier occurrence within 16 hops, prefix addresses with any number of "
+            "omitted trailing zero octets (minimal, full, in between), SvcParams in any order, empty variable fields, all 46 "
+            "record types, OPT with its options, APL - and for EVERY well-formed message m and EVERY legal rendering b of at most "
+            "65,535 octets the reference decoder and the library model accept b and return m (up to ASCII case of labels; "
+            "C04_render_accepted_dec). Completeness - whatever the independent reference decoder Spec/Wire.v accepts (whole "
             "message, RR, question, flags, name), the model of the library's decoder accepts with the same value; for names the "
             "exact acceptance condition: accepted iff the reference expansion through at most 17 pointers exists, the labels are "
             "1..=63 octets of UTF-8, the name has <= 255 wire octets and its own octets end inside the window (any backward or "
@@ -206,8 +217,8 @@ CLAIMS["C04"] = {
             "flips, address octet counts minimal..full, SvcParam permutations, zero-length fields, sizes to 65,535) must decode "
             "to exactly that message; W cases compare the implementation directly with the extracted Spec/Wire.v in the "
             "completeness direction.",
-    "note": "A Gallina renderer with a proof 'every rendering is accepted by Spec/Wire.v' (C04_render_accepted of the plan) is not built; the rendering side is the Python renderer (test), the acceptance side is proved. " + NOTE_COMMON,
-    "technique": "Coq proof (reference decoder refines to the model decoder; exact name acceptance condition) + reference-renderer differential streams + direct library-vs-Coq-reference comparison",
+    "note": "Spec/Render.v (182 lines) is a specification to audit against the RFCs; forward pointers are not part of it (the property speaks of backward compression). " + NOTE_COMMON,
+    "technique": "Coq proof (declarative rendering relation accepted by the reference decoder, which refines to the model decoder; exact name acceptance condition) + reference-renderer differential streams + direct library-vs-Coq-reference comparison",
     "ref": "DESIGN.md section 7 C04",
 }
 
@@ -261,15 +272,19 @@ CLAIMS["C02"] = {
     "ref": "DESIGN.md section 7 C02",
 }
 CLAIMS["C10"] = {
-    "text": "Four Coq theorems (Props/C10.v): enc_RR/dec_RR, enc_Question/dec_Question, enc_DomainName/dec_DomainName and "
+    "text": "Twenty-four Coq theorems (Props/C10.v). Relocation: C10_question_first - a stand-alone question occupies exactly the "
+            "octets it has as the first element of a message (no size hypothesis); C10_rr_first - for a record, the in-message "
+            "octets equal the stand-alone octets except at the compression pointers, whose 14-bit targets are shifted by exactly "
+            "12 (bufrelP), for messages up to 16384 octets (shown necessary by a witness at the 0x3FFF boundary), with converses "
+            "and the generic any-prefix simulation of the whole encoder. Round trips: enc_RR/dec_RR, enc_Question/dec_Question, enc_DomainName/dec_DomainName and "
             "enc_Flags/dec_Flags round-trip for every well-formed value (all 46 record types; Flags exactly); the code entry "
             "points are C11_code_points; 'what an independent decoder expects at offset 0' follows with C03_sound_RR/Question/"
             "DomainName/Flags. Tie: E cases on every stand-alone encode entry point and on the record structs' own encode (33 "
             "structs), the same element as the only element of a message - the bytes must be equal up to the shift of pointer "
             "offsets by 12 (cross-case oracle) - D cases on RR/Question/DomainName with re-encode and second decode; reference "
             "decoder reads every output at offset 0.",
-    "note": "The first-element-of-a-message clause (relocation of pointer offsets by 12) is decided by the cross-case oracle, not by a theorem. " + NOTE_COMMON,
-    "technique": "Coq proof (element round trips from the empty encoder state) + byte-exact differential correspondence + cross-case relocation oracle",
+    "note": "The relocation theorems need the in-message output to stay within 16384 octets (beyond it the two runs may legitimately compress differently). " + NOTE_COMMON,
+    "technique": "Coq proof (two-run simulation of the encoder under an offset shift; element round trips) + byte-exact differential correspondence + cross-case relocation oracle",
     "ref": "DESIGN.md section 7 C10",
 }
 
@@ -280,9 +295,17 @@ def main():
     path = os.path.join(VERIF, "MANIFEST.json")
     m = json.load(open(path))
     checks = []
+    import re
     for pid in ALL:
         if pid in CLAIMS:
-            c = CLAIMS[pid]
+            c = dict(CLAIMS[pid])
+            # the number of theorems is counted from Props/<pid>.v, not written by hand
+            try:
+                src = open(os.path.join(VERIF, "coq", "Props", pid + ".v"), encoding="utf-8").read()
+                n = len(re.findall(r"(?m)^Theorem\s", src))
+                c["text"] = re.sub(r"^[A-Z][a-z]+(?:-[a-z]+)? Coq theorems", "%d Coq theorems" % n, c["text"])
+            except OSError:
+                pass
             checks.append({
                 "property_id": pid,
                 "quick_cmd": "python3 tools/check.py %s --tier quick" % pid,
